@@ -51,7 +51,7 @@ num_el["mixc"] = st.one_of(st.integers(-4, 6), V.small_floats, V.complexes)
 
 @st.composite
 def operand_case(draw, tier="quick"):
-    fam = draw(st.sampled_from(["num", "num", "num", "str", "strint", "date_date", "date_td", "date_int", "exact", "bytes"]))
+    fam = draw(st.sampled_from(["num", "num", "num", "str", "strint", "date_date", "date_td", "date_int", "exact", "bytes", "datetime_td"]))
     big = tier == "thorough" and draw(st.integers(0, 14)) == 0
     n = draw(st.integers(50, 200)) if big else draw(st.one_of(st.integers(0, 8), st.sampled_from([0, 1, 2])))
     if fam == "num":
@@ -82,6 +82,9 @@ def operand_case(draw, tier="quick"):
     elif fam == "date_td":
         ka, kb = "date", "timedelta"
         ea, eb = V.dates, V.timedeltas
+    elif fam == "datetime_td":
+        ka, kb = "datetime", "timedelta"
+        ea, eb = V.datetimes, V.timedeltas
     else:
         ka, kb = "date", "int"
         ea, eb = V.dates, st.integers(-400, 400)
@@ -127,7 +130,7 @@ def _ops_for(fam):
         return [BIN[2]]
     if fam == "date_date":
         return [BIN[1]]
-    if fam == "date_td":
+    if fam in ("date_td", "datetime_td"):
         return [BIN[0], BIN[1]]
     return [BIN[0]]
 
